@@ -314,7 +314,9 @@ end PTrace
 namespace LifeStream
 open Tea.Runtime.Life
 
-/-- every lifecycle label that can matter, in a fixed order (greedy scheduler) -/
+/-- every lifecycle label that can matter, in a fixed order (greedy scheduler); the internal steps of
+Run's start-up come LAST: a Kill() that strikes during the start-up runs its whole shutdown (the
+renderer's halt included) before Run goes on starting up -/
 def lifecycleLabels (nSenders nKillers : Nat) : List Label :=
   [.elCtxExit, .elCmdAbort, .elRecvErr, .elRecvSig, .runTail, .dispExit, .sigExit, .sigAbort, .resizeExit,
    .initAbort, .readerMsgAbort, .readerErrAbort, .readerCanceled, .elCmdHandOver, .initHandOver, .elRecvReader] ++
@@ -322,7 +324,8 @@ def lifecycleLabels (nSenders nKillers : Nat) : List Label :=
   (List.range nSenders).map (fun i => Label.sendAbort i) ++
   ((none :: (List.range nKillers).map some).flatMap fun who =>
     [.shCancel who, .shHandlers who, .shReader who, .shWaitRead who, .shWaitReadTimeout who, .shRenderer who, .shRestore who]) ++
-  [.runReturn]
+  [.runReturn] ++
+  [.suSigHandler, .suNewRenderer, .suStartRenderer, .suSpawnInit, .suOpenReader, .suSpawnHandlers]
 
 /-- run lifecycle steps (first enabled, repeatedly) plus the returns of user callbacks the
 scenario releases; stop when Run has returned or nothing is enabled -/
@@ -339,6 +342,11 @@ def settle (fuel : Nat) (release : List Label) (s : St) : St :=
 def applyAll (s : St) (ls : List Label) : St :=
   ls.foldl (fun s l => (step s l).getD s) s
 
+/-- the user callbacks a scenario releases: those of the loop and the listen goroutine, and those of
+Run's start-up (the writer of the mode sequences, Init, the first View) -/
+def releaseLabels : List Label :=
+  [.callbackReturns, .viewReturns, .writerReturns, .startWriterReturns, .initReturns, .firstViewReturns]
+
 def run (line : String) : String :=
   match words line with
   | [cause, strike, pending, input] =>
@@ -348,17 +356,32 @@ def run (line : String) : String :=
     let sendersK : List SendKind := [.user, causeKind, .user] ++ List.replicate nBlocked .user
     let hasInput : Bool := input != "nil" || cause == "readerr"
     let cfg : Config := { cancelable := input == "pipe", withSignalHandler := false, ignoreSignals := false, withResize := false, withInitCmd := false, withInput := hasInput, senders := sendersK, waiters := 0 }
-    let s0 := init cfg
+    -- a strike during Run's start-up: how many steps of the fault-free schedule lead to that stage
+    let startupStage : Option Nat := match strike with
+      | "startup-write" => some 2     -- inside the writer of the mode sequences
+      | "in-init" => some 4           -- inside Init
+      | "in-first-view" => some 6     -- inside the first View
+      | _ => none
+    -- causes that need the running loop (a message to process, a read loop): during the start-up
+    -- they can only strike once the loop has begun
+    let needsLoop : Bool := cause == "readerr" || cause == "panic-update" || cause == "panic-view"
     -- reach the strike point
     let toCallback : List Label := [.sendCall 0, .elRecvSender 0]
-    let s1 := match strike with
-      | "in-update" | "in-filter" => applyAll s0 toCallback
-      | "in-view" => applyAll s0 (toCallback ++ [.callbackReturns, .elCmdHandOver])
-      | "in-writer" => applyAll s0 [.tick]
-      | _ => s0
+    let s1 := match startupStage with
+      | some k =>
+        let sk := applyAll (init0 cfg) (startupSchedule.take k)
+        if needsLoop then settle 2000 releaseLabels sk else sk
+      | none =>
+        let s0 := init cfg
+        match strike with
+        | "in-update" | "in-filter" => applyAll s0 toCallback
+        | "in-view" => applyAll s0 (toCallback ++ [.callbackReturns, .elCmdHandOver])
+        | "in-writer" => applyAll s0 [.tick]
+        | _ => s0
     -- pending senders block in Send
     let s2 := applyAll s1 ((List.range nBlocked).map (fun i => Label.sendCall (3 + i)))
-    -- the cause strikes
+    -- the cause strikes (during the start-up the sender of a quit / interrupt message blocks in Send
+    -- until the loop runs)
     let s3 := match cause with
       | "quitmsg" | "quitapi" | "interrupt" => applyAll s2 [.sendCall 1]
       | "kill" | "panic-cmd" => applyAll s2 [.killCall, .shCancel (some 0)]
@@ -373,10 +396,11 @@ def run (line : String) : String :=
                      .callbackReturns, .elCmdHandOver, .viewPanics]
       | _ => s2
     -- the in-progress callbacks return; everything else is lifecycle
-    let s4 := settle 2000 [.callbackReturns, .viewReturns, .writerReturns] s3
+    let s4 := settle 2000 releaseLabels s3
     if s4.runPc = .returned then
       let e := match s4.runErr with
         | .nil => "nil" | .interrupted => "interrupted" | .killed => "killed" | .reader => "readerr"
+        | .startup => "startup"
       s!"returned err={e}"
     else "HANG"
   | _ => "bad-op"
